@@ -1,6 +1,7 @@
 """CSS selector parser."""
 from __future__ import annotations
 import re
+import threading
 from functools import lru_cache
 from . import util
 from . import css_match as cm
@@ -323,8 +324,22 @@ class SpecialPseudoPattern(SelectorPattern):
             for pseudo in p[1]:
                 self.patterns[pseudo] = pattern
 
-        self.matched_name = None  # type: SelectorPattern | None
+        # The parser's token table is shared by every parser instance (and thread),
+        # so what matched last must be tracked per thread.
+        self._matched = threading.local()
         self.re_pseudo_name = re.compile(PAT_PSEUDO_CLASS_SPECIAL, re.I | re.X | re.U)
+
+    @property
+    def matched_name(self) -> SelectorPattern | None:
+        """Get the pattern that matched last in the current thread."""
+
+        return getattr(self._matched, 'pattern', None)
+
+    @matched_name.setter
+    def matched_name(self, pattern: SelectorPattern | None) -> None:
+        """Set the pattern that matched last in the current thread."""
+
+        self._matched.pattern = pattern
 
     def get_name(self) -> str:
         """Get name."""
